@@ -129,6 +129,8 @@ struct World {
 static World gWorld;
 
 static std::string encodeValue(const RuleSpec& r, int v) {
+  // prefix 0xEE: the value IS the byte, and 0 is encoded as the EMPTY value
+  if (r.prefix == "\xee") return v == 0 ? std::string() : std::string(1, char((unsigned char)v));
   std::string s = r.prefix;
   s.push_back(char((unsigned char)v));
   return s;
